@@ -1032,6 +1032,99 @@ pub fn mutation_cases(r: &mut Rng, id: &str, a: &Iface, per_kind: usize, all_tru
             parse_case("mut-space", &format!("{id}-sp{k}"), &t, None, stats);
         }
     }
+    let vocab = |r: &mut Rng| -> Tok {
+        let mk = |k: &str, s: &str| Tok { k: k.into(), s: s.into(), c: class_of(s), sp: true, own: false };
+        match r.below(12) {
+            0 => mk("P", "("),
+            1 => mk("P", ")"),
+            2 => mk("P", ","),
+            3 => mk("P", ":"),
+            4 => mk("P", "?"),
+            5 => mk("P", "[]"),
+            6 => mk("P", "->"),
+            7 => mk("W", *r.pick(&["int", "string", "bool", "Other"])),
+            8 => mk("W", *r.pick(&["type", "method", "error", "interface"])),
+            _ => mk("W", &gen_field_name(r)),
+        }
+    };
+    for k in 0..per_kind {
+        // insertion of one token of the grammar's own vocabulary
+        let i = r.below(n as u64 + 1) as usize;
+        let mut t = toks.clone();
+        let v = vocab(r);
+        t.insert(i, v);
+        parse_case("mut-ins", &format!("{id}-ins{k}"), &render_tokens(&t), None, stats);
+        // two or three edits at once
+        let mut t = toks.clone();
+        for _ in 0..r.range(2, 3) {
+            if t.is_empty() {
+                break;
+            }
+            let i = r.below(t.len() as u64) as usize;
+            match r.below(4) {
+                0 => {
+                    t.remove(i);
+                }
+                1 => {
+                    let x = t[i].clone();
+                    t.insert(i, x);
+                }
+                2 => {
+                    let j = r.below(t.len() as u64) as usize;
+                    t.swap(i, j);
+                }
+                _ => {
+                    let v = vocab(r);
+                    t.insert(i, v);
+                }
+            }
+        }
+        parse_case("mut-multi", &format!("{id}-multi{k}"), &render_tokens(&t), None, stats);
+        // a bare name, or a typed field, pushed into a parenthesised list (mixes the struct and the
+        // enum form, or adds an element that must show up in the result)
+        let opens: Vec<usize> = (0..n).filter(|i| toks[*i].k == "P" && toks[*i].s == "(" && i + 1 < n && !(toks[i + 1].k == "P" && toks[i + 1].s == ")")).collect();
+        if !opens.is_empty() {
+            let o = opens[r.below(opens.len() as u64) as usize];
+            // the matching close
+            let mut depth = 0i32;
+            let mut close = o;
+            for (j, t) in toks.iter().enumerate().skip(o) {
+                if t.k == "P" && t.s == "(" {
+                    depth += 1;
+                } else if t.k == "P" && t.s == ")" {
+                    depth -= 1;
+                    if depth == 0 {
+                        close = j;
+                        break;
+                    }
+                }
+            }
+            let mk = |k: &str, s: &str| Tok { k: k.into(), s: s.into(), c: class_of(s), sp: true, own: false };
+            let name = gen_field_name(r);
+            let elem: Vec<Tok> = if r.chance(1, 2) {
+                vec![mk("W", &name)]
+            } else {
+                vec![mk("W", &name), mk("P", ":"), mk("W", "int")]
+            };
+            let mut t = toks.clone();
+            if r.chance(1, 2) || close <= o {
+                // at the front
+                let mut ins = elem.clone();
+                ins.push(mk("P", ","));
+                for (x, tk) in ins.into_iter().enumerate() {
+                    t.insert(o + 1 + x, tk);
+                }
+            } else {
+                // at the back
+                let mut ins = vec![mk("P", ",")];
+                ins.extend(elem.clone());
+                for (x, tk) in ins.into_iter().enumerate() {
+                    t.insert(close + x, tk);
+                }
+            }
+            parse_case("mut-mix", &format!("{id}-mix{k}"), &render_tokens(&t), None, stats);
+        }
+    }
     if all_truncations {
         for (k, cut) in char_boundaries(&text).into_iter().enumerate() {
             if cut == text.len() {
